@@ -7,6 +7,8 @@ Definition rwhere (c a b : R) : R := if Req_EM_T c 0 then b else a.
 (* x == y and x != y as 0/1 values *)
 Definition req (x y : R) : R := if Req_EM_T x y then 1 else 0.
 Definition rneq (x y : R) : R := if Req_EM_T x y then 0 else 1.
+(* a | b on 0/1 values *)
+Definition ror (a b : R) : R := if Req_EM_T a 0 then (if Req_EM_T b 0 then 0 else 1) else 1.
 (* anp.sign *)
 Definition rsign (x : R) : R :=
   if Rlt_dec 0 x then 1 else if Rlt_dec x 0 then -1 else 0.
@@ -17,6 +19,8 @@ Lemma rwhere_nz c a b : c <> 0 -> rwhere c a b = a.
 Proof. unfold rwhere. destruct (Req_EM_T c 0); tauto. Qed.
 Lemma rwhere_z a b : rwhere 0 a b = b.
 Proof. unfold rwhere. destruct (Req_EM_T 0 0); tauto. Qed.
+Lemma ror_r a b : b <> 0 -> ror a b <> 0.
+Proof. unfold ror. intros H. destruct (Req_EM_T a 0); [destruct (Req_EM_T b 0); [tauto|]|]; apply R1_neq_R0. Qed.
 Lemma req_refl x : req x x = 1.
 Proof. unfold req. destruct (Req_EM_T x x); tauto. Qed.
 Lemma req_neq x y : x <> y -> req x y = 0.
